@@ -292,6 +292,7 @@ func c09(c *Ctx) {
 		c09mono(c, fn)
 	}
 	c09labels(c)
+	c09inputs(c)
 	if fn := c.Fn(batchPkg, "Plugin", "Calculate"); fn != nil {
 		c09degrade(c, fn, batchPkg)
 		if mf := c.Fn(midPkg, "Plugin", "Calculate"); mf != nil {
@@ -978,4 +979,60 @@ func c09labels(c *Ctx) {
 		}
 	}
 	r.Check(nTests >= 1 && bad == "" && nonNil && n > 0, "PATH", fkey(fn)+"/zero-honoured", c.Pos(fn.Pos()), "only a ratio below zero is rejected", sprintf("a non-negative ratio label can be dropped (%d tests of the parsed value against 0; %s; nil reachable for a parsed, non-negative value=%v)", nTests, bad, !nonNil))
+}
+
+// c09inputs: the calculated result is not rewritten while it is published, and the node's ratio labels always apply.
+func c09inputs(c *Ctx) {
+	r := c.R
+	r.Decides("publishing the zone amounts writes nothing into the calculated NodeResource (the retry loop applies the same result to a freshly read object after a conflict: an in-place amplification would be applied twice); the node's reclaim-ratio labels override the strategy on every path, also when the node's strategy annotation does not parse")
+	r.Rule("EFFECT(published result is read-only): util.UpdateNRTZoneListIfNeeded performs no store, map update or delete on anything reachable from its *NodeResource parameter (directly or in in-package callees, two levels)")
+	if fn := c.Fn(resutilPkg, "", "UpdateNRTZoneListIfNeeded"); fn != nil {
+		var nr *ssa.Parameter
+		for _, p := range fn.Params {
+			if strings.HasSuffix(p.Type().String(), ".NodeResource") {
+				nr = p
+			}
+		}
+		if nr == nil {
+			r.Unknown("EFFECT", fkey(fn)+"/result-read-only", c.Pos(fn.Pos()), "no *NodeResource parameter: unknown idiom")
+		} else {
+			es := an.DeepEffects(fn, nr, map[string]bool{"Add": true, "Sub": true, "Set": true, "Insert": true, "Delete": true}, 2)
+			// writes through a map read from the result: zoneResource := nr.ZoneResources[z]; zoneResource[k] = v
+			for _, b := range fn.Blocks {
+				for _, in := range b.Instrs {
+					if mu, ok := in.(*ssa.MapUpdate); ok {
+						for x := range backwardAll(mu.Map) {
+							if x == ssa.Value(nr) {
+								es = append(es, an.Effect{Op: "mapstore", Instr: mu})
+							}
+						}
+					}
+				}
+			}
+			var ss []string
+			for _, e := range es {
+				ss = append(ss, c.InstrPos(e.Instr))
+			}
+			r.Check(len(es) == 0, "EFFECT", fkey(fn)+"/result-read-only", c.Pos(fn.Pos()), "nothing reachable from the calculated result is written", "the calculated NodeResource is modified while it is being published (at "+strings.Join(ss, ", ")+"): after a conflict the retry applies the already modified result again (e.g. zone batch-cpu amplified twice)")
+		}
+	}
+
+	r.Rule("PATH(labels always apply): in sloconfig.UpdateColocationStrategyForNode each of the getNodeReclaimPercent(node, <label>) calls is reached on every path from the entry (the label overrides are independent of the node's strategy annotation; a parse error of the annotation must not skip them)")
+	if fn := c.Fn("pkg/util/sloconfig", "", "UpdateColocationStrategyForNode"); fn != nil {
+		n := 0
+		for _, cl := range an.Calls(fn, false) {
+			if an.ShortCallee(cl.Common()) != "getNodeReclaimPercent" {
+				continue
+			}
+			n++
+			target := cl
+			label := "?"
+			if s, ok := constString(cl.Common().Args[1]); ok {
+				label = s[strings.LastIndex(s, "/")+1:]
+			}
+			reach := an.Explore(fn, nil, nil, func(in ssa.Instruction) bool { return in == ssa.Instruction(target) })
+			r.Check(len(reach.Returns()) == 0, "PATH", fkey(fn)+"/label-applies/"+label, c.InstrPos(cl), "read on every path", "the node label "+label+" is not consulted on every path (e.g. skipped when the node's strategy annotation does not parse): a node that restricts reclaiming by label is calculated with the cluster-wide ratio")
+		}
+		r.Floor("PATH", "ratio labels consulted in UpdateColocationStrategyForNode", n, 4)
+	}
 }
